@@ -6,11 +6,14 @@
     Every other call either makes no nested call at all (primitives, calls rejected at once) or
     reads at least one byte first (boxed struct / union: tag; vector / dictionary: count).
 
-    [ranked s rank]: the explicit ranking [rank] (one natural number per type instance) strictly
-    decreases along every edge "non-consuming call -> non-consuming nested call that can happen
-    with zero bytes consumed since the parent's entry".  A field can be reached with zero bytes
-    consumed only while no earlier field *definitely consumes*; conservatively a field definitely
-    consumes iff it is unmasked and its call is not [nc]. *)
+    Certificates (found by the check, VERIFIED by the boolean functions below):
+    - [dc : list bool]: bare structs that *definitely consume* (>= 1 byte whenever they succeed)
+      because one of their unmasked fields does ([dc_ok]; the justification may be circular --
+      "success implies consumption" is proved by induction on fuel);
+    - [rank : list nat]: strictly decreases along every edge "non-consuming call -> non-consuming
+      nested call that can happen with zero bytes consumed since the parent's entry" ([ranked]).
+      A field can be reached with zero bytes consumed only while no earlier field definitely
+      consumes; a field definitely consumes iff it is unmasked and its call is [dcall]. *)
 From TLV Require Export Tl1.Tl1Model.
 Open Scope N_scope.
 
@@ -22,59 +25,103 @@ Definition nc (s : schema) (t : nat) (bare : bool) : bool :=
   | _ => false
   end.
 
+(** calls that consume at least one byte whenever they succeed *)
+Definition dcall (s : schema) (dc : list bool) (t : nat) (bare : bool) : bool :=
+  negb (nc s t bare) || nth t dc false.
+
+Definition def_consumes (s : schema) (dc : list bool) (fd : field) : bool :=
+  match f_mask fd with
+  | None => dcall s dc (f_ty fd) (f_bare fd)
+  | Some _ => false
+  end.
+
+Definition dc_witness (s : schema) (dc : list bool) (d : tydef) : bool :=
+  match d with
+  | TStruct _ fds => existsb (def_consumes s dc) fds
+  | _ => false
+  end.
+
+Fixpoint dc_ok_from (s : schema) (dc : list bool) (t : nat) (l : list tydef) : bool :=
+  match l with
+  | [] => true
+  | d :: r => (if nth t dc false then dc_witness s dc d else true) && dc_ok_from s dc (S t) r
+  end.
+
+Definition dc_ok (s : schema) (dc : list bool) : bool := dc_ok_from s dc 0%nat s.
+
 Definition rk (rank : list nat) (t : nat) : nat := nth t rank 0%nat.
 
 (** nested call [fd] made by a parent of rank [p] at the parent's own input position *)
 Definition child_ok (s : schema) (rank : list nat) (p : nat) (fd : field) : bool :=
   if nc s (f_ty fd) (f_bare fd) then Nat.ltb (rk rank (f_ty fd)) p else true.
 
-Definition def_consumes (s : schema) (fd : field) : bool :=
-  match f_mask fd with
-  | None => negb (nc s (f_ty fd) (f_bare fd))
-  | Some _ => false
-  end.
-
-Fixpoint fields_ranked (s : schema) (rank : list nat) (p : nat) (fds : list field) : bool :=
+Fixpoint fields_ranked (s : schema) (dc : list bool) (rank : list nat) (p : nat) (fds : list field) : bool :=
   match fds with
   | [] => true
-  | fd :: r => child_ok s rank p fd && (if def_consumes s fd then true else fields_ranked s rank p r)
+  | fd :: r => child_ok s rank p fd && (if def_consumes s dc fd then true else fields_ranked s dc rank p r)
   end.
 
-Definition tydef_ranked (s : schema) (rank : list nat) (t : nat) (d : tydef) : bool :=
+Definition tydef_ranked (s : schema) (dc : list bool) (rank : list nat) (t : nat) (d : tydef) : bool :=
   match d with
-  | TStruct _ fds => fields_ranked s rank (rk rank t) fds
+  | TStruct _ fds => fields_ranked s dc rank (rk rank t) fds
   | TArray AVector _ => true
   | TArray _ ef => child_ok s rank (rk rank t) ef
   | _ => true
   end.
 
-Fixpoint ranked_from (s : schema) (rank : list nat) (t : nat) (l : list tydef) : bool :=
+Fixpoint ranked_from (s : schema) (dc : list bool) (rank : list nat) (t : nat) (l : list tydef) : bool :=
   match l with
   | [] => true
-  | d :: r => tydef_ranked s rank t d && ranked_from s rank (S t) r
+  | d :: r => tydef_ranked s dc rank t d && ranked_from s dc rank (S t) r
   end.
 
-Definition ranked (s : schema) (rank : list nat) : bool := ranked_from s rank 0%nat s.
+(** the checked certificate *)
+Definition ranked (s : schema) (dc : list bool) (rank : list nat) : bool :=
+  dc_ok s dc && ranked_from s dc rank 0%nat s.
 
-(** ** a ranking computed inside the model: least fixpoint of "1 + max over zero-consumption
-    non-consuming children", by at most |s|+1 rounds of relaxation from the all-zero ranking *)
-Fixpoint fields_rank (s : schema) (rank : list nat) (fds : list field) : nat :=
+(** ** certificates computed inside the model *)
+Fixpoint bool_list_eqb (a b : list bool) : bool :=
+  match a, b with
+  | [], [] => true
+  | x :: a', y :: b' => Bool.eqb x y && bool_list_eqb a' b'
+  | _, _ => false
+  end.
+
+Fixpoint dc_step_from (s : schema) (dc : list bool) (t : nat) (l : list tydef) : list bool :=
+  match l with
+  | [] => []
+  | d :: r => (nth t dc false && dc_witness s dc d) :: dc_step_from s dc (S t) r
+  end.
+
+(** greatest fixpoint, from "every struct" downwards *)
+Fixpoint dc_iter (s : schema) (n : nat) (dc : list bool) : list bool :=
+  match n with
+  | O => dc
+  | S n' => let dc' := dc_step_from s dc 0%nat s in if bool_list_eqb dc' dc then dc else dc_iter s n' dc'
+  end.
+
+Definition auto_dc (s : schema) : list bool :=
+  dc_iter s (S (length s)) (map (fun d => match d with TStruct _ _ => true | _ => false end) s).
+
+(** least fixpoint of "1 + max over zero-consumption non-consuming children", by at most |s|+1
+    rounds of relaxation from the all-zero ranking *)
+Fixpoint fields_rank (s : schema) (dc : list bool) (rank : list nat) (fds : list field) : nat :=
   match fds with
   | [] => 0%nat
   | fd :: r =>
       Nat.max (if nc s (f_ty fd) (f_bare fd) then S (rk rank (f_ty fd)) else 0%nat)
-              (if def_consumes s fd then 0%nat else fields_rank s rank r)
+              (if def_consumes s dc fd then 0%nat else fields_rank s dc rank r)
   end.
 
-Definition tydef_rank (s : schema) (rank : list nat) (d : tydef) : nat :=
+Definition tydef_rank (s : schema) (dc : list bool) (rank : list nat) (d : tydef) : nat :=
   match d with
-  | TStruct _ fds => fields_rank s rank fds
+  | TStruct _ fds => fields_rank s dc rank fds
   | TArray AVector _ => 0%nat
   | TArray _ ef => if nc s (f_ty ef) (f_bare ef) then S (rk rank (f_ty ef)) else 0%nat
   | _ => 0%nat
   end.
 
-Definition relax (s : schema) (rank : list nat) : list nat := map (tydef_rank s rank) s.
+Definition relax (s : schema) (dc : list bool) (rank : list nat) : list nat := map (tydef_rank s dc rank) s.
 
 Fixpoint nat_list_eqb (a b : list nat) : bool :=
   match a, b with
@@ -83,15 +130,16 @@ Fixpoint nat_list_eqb (a b : list nat) : bool :=
   | _, _ => false
   end.
 
-Fixpoint relax_iter (s : schema) (n : nat) (rank : list nat) : list nat :=
+Fixpoint relax_iter (s : schema) (dc : list bool) (n : nat) (rank : list nat) : list nat :=
   match n with
   | O => rank
-  | S n' => let r' := relax s rank in if nat_list_eqb r' rank then rank else relax_iter s n' r'
+  | S n' => let r' := relax s dc rank in if nat_list_eqb r' rank then rank else relax_iter s dc n' r'
   end.
 
-Definition auto_rank (s : schema) : list nat := relax_iter s (S (length s)) (map (fun _ => 0%nat) s).
+Definition auto_rank (s : schema) : list nat :=
+  relax_iter s (auto_dc s) (S (length s)) (map (fun _ => 0%nat) s).
 
-Definition productive (s : schema) : bool := ranked s (auto_rank s).
+Definition productive (s : schema) : bool := ranked s (auto_dc s) (auto_rank s).
 
 (** ** the fuel that always suffices for a ranked schema *)
 Definition max_rank (rank : list nat) : nat := fold_right Nat.max 0%nat rank.
